@@ -89,10 +89,13 @@ std::string invariants(const DensityLegalizer &leg, const std::vector<Rectangle>
   // reported coordinates inside the bin
   std::vector<float> sx = leg.spreadCoordX(tx), sy = leg.spreadCoordY(ty), px = leg.simpleCoordX(), py = leg.simpleCoordY();
   double mag = std::max({std::fabs((double)area.minX), std::fabs((double)area.maxX), std::fabs((double)area.minY), std::fabs((double)area.maxY), 1.0});
-  double tol = 2 * ulpF(mag);
+  double tol0 = 2 * ulpF(mag);
   for (int c = 0; c < n; ++c) {
     if (demand[c] <= 0) continue;
     double lx = leg.binLimitX(bx[c]), hx = leg.binLimitX(bx[c] + 1), ly = leg.binLimitY(by[c]), hy = leg.binLimitY(by[c] + 1);
+    // the spread position is a single-precision running sum over the cells of the bin: one rounding
+    // per cell, each at most 2^-23 of the bin extent
+    double tol = tol0 + (n + 4) * std::ldexp(std::max(hx - lx, hy - ly), -23);
     auto in = [&](double v, double lo, double hi) { return std::isfinite(v) && v >= lo - tol && v <= hi + tol; };
     if (!in(sx[c], lx, hx) || !in(sy[c], ly, hy)) {
       m << "spread coordinate (" << sx[c] << "," << sy[c] << ") of cell " << c << " is outside its bin [" << lx << "," << hx << "]x[" << ly << "," << hy << "]";
@@ -128,6 +131,7 @@ bool prop(Tape &t, Report &R) {
   int src = t.weighted({3, 2});
   std::vector<Rectangle> regions;
   std::vector<int> demand;
+  bool hugeCell = false;
   int binSize = 1;
   DensityLegalizer *legp = nullptr;
   std::string desc;
@@ -155,6 +159,16 @@ bool prop(Tape &t, Report &R) {
     binSize = t.choose(1, 3 * h);
     int n = t.choose(1, 25);
     for (int c = 0; c < n; ++c) demand.push_back(t.flip(1, 8) ? 0 : t.choose(1, 4) * h * (t.flip(1, 6) ? t.choose(1, 30) : 1));
+    // one block millions of times larger than the cells around it (a macro among unit cells);
+    // the choice is read from the last word of the tape so that the other choices keep their place
+    {
+      uint32_t lw = t.w.empty() ? 0 : t.w.back();
+      if ((lw >> 6) % 6 == 1) {
+        demand[(lw >> 10) % (uint32_t)n] = 10000000 + (int)((lw >> 12) % 1000000u) * 2000;
+        hugeCell = true;
+        R.classify("cells:one-block-millions-of-times-larger");
+      }
+    }
     legp = new DensityLegalizer(DensityGrid(binSize, regions), demand);
     std::ostringstream d;
     d << "{\"regions\":" << regions.size() << ",\"binSize\":" << binSize << ",\"cells\":" << n << ",\"first_region\":["
